@@ -534,14 +534,17 @@ class Peer:
             self.proto.negotiated.received(received_open)
             self.proto.negotiated.received(received_open)
 
-            self.proto.connection.msg_size = self.proto.negotiated.msg_size
-
             # if we mirror the ASN, we need to read first and send second
             if not self.neighbor.session.local_as:
                 sent_open = await self._send_open()
                 self.proto.negotiated.sent(sent_open)
                 self.proto.negotiated.sent(sent_open)
                 self.fsm.change(FSM.OPENSENT)
+
+            # Once BOTH OPENs are known. Copied right after the peer's OPEN, a `local-as auto` session, which sends
+            # its own OPEN second, kept 4096 although extended messages were negotiated: a valid 5000 octet UPDATE
+            # was refused with 1/2.
+            self.proto.connection.msg_size = self.proto.negotiated.msg_size
 
             self.proto.validate_open()
             self.fsm.change(FSM.OPENCONFIRM)
